@@ -295,7 +295,20 @@ def run_case(c):
                                    [("return_point_cloud", R(c, "pc", c["pc"]), False)])
             snap = lambda: [vec(center)]
         elif k == "box":
-            box = AABB(list(c["p1"]), list(c["p2"]))
+            cs = c.get("corners")
+            if cs:
+                # the caller hands FLOAT ndarrays and goes on using them: a second box built from the same arrays is
+                # padded in place, or the buffers are reused; the box requested at construction must not move
+                lo, hi = np.array(c["p1"], dtype=float), np.array(c["p2"], dtype=float)
+                box = AABB(lo, hi)
+                if cs == "pad_other":
+                    other = AABB(lo, hi)
+                    other.pad(1.5)
+                else:
+                    lo += 10.0
+                    hi += 10.0
+            else:
+                box = AABB(list(c["p1"]), list(c["p2"]))
             opt = [("mode", c["mode"], "uniform"), ("return_point_cloud", R(c, "pc", c["pc"]), False)]
             sampler = lambda: call(sampling.sample_AABB, c, [box, R(c, "n", c["n"])], opt)
             snap = lambda: [vec(box.mini), vec(box.maxi)]
